@@ -143,7 +143,7 @@ def check_frame(I, con, spec, views, old_heap, name):
         old = old_heap.get(fname, ctx.heap0.get(fname))
         if old is None or arr.eq(old):
             continue
-        if fname in ("__context__",):
+        if fname in ("__context__",) or fname.startswith("$ghost"):
             continue
         x = z3.Int("fx")
         preds = allowed.get(fname, [])
